@@ -146,6 +146,14 @@ def _annot(rng: random.Random, t: dict, field_ok=True) -> dict:
     return t
 
 
+LAMBDA_SIGNATURE_PARTS = [
+    {'prim': 'operation'}, {'prim': 'list', 'args': [{'prim': 'operation'}]},
+    {'prim': 'big_map', 'args': [{'prim': 'nat'}, {'prim': 'string'}]}, {'prim': 'ticket', 'args': [{'prim': 'nat'}]},
+    {'prim': 'sapling_state', 'args': [{'int': '8'}]},
+    {'prim': 'pair', 'args': [{'prim': 'nat'}, {'prim': 'big_map', 'args': [{'prim': 'nat'}, {'prim': 'nat'}]}]},
+]
+
+
 def gen_type(rng: random.Random, depth: int, comparable=False, annots=True, field_ok=True, lambdas=True) -> dict:
     def scalar():
         name = rng.choice(COMPARABLE if comparable else SCALARS)
@@ -185,6 +193,8 @@ def gen_type(rng: random.Random, depth: int, comparable=False, annots=True, fiel
         else:
             t = {'prim': 'lambda', 'args': [gen_type(rng, 1, annots=False, field_ok=False, lambdas=False),
                                             gen_type(rng, 1, annots=False, field_ok=False, lambdas=False)]}
+            if rng.random() < 0.3:  # a lambda is storable/packable whatever its signature mentions
+                t['args'][rng.randrange(2)] = rng.choice(LAMBDA_SIGNATURE_PARTS)
     if annots:
         t = _annot(rng, t, field_ok=field_ok)
     return t
